@@ -395,6 +395,87 @@ func (x *Exec) callbackCall(fc *FuncContract, key string, sig *types.Signature, 
 	return x.freshResults(sig, key+".res", st), true
 }
 
+// rangeCopied returns an array value equal to dst except that positions dstFrom .. dstFrom+n-1 hold
+// src[srcFrom .. srcFrom+n-1] (unconstrained when src is nil: bytes of an uninterpreted string).
+func (x *Exec) rangeCopied(dst Value, dstFrom Term, src Value, srcFrom Term, n Term, st *State) Value {
+	is := x.idxSort()
+	var walk func(d, s Value) Value
+	walk = func(d, s Value) Value {
+		switch dv := d.(type) {
+		case Term:
+			na := x.vc.fresh("copied", dv.T)
+			q := Term{"qc", is}
+			rel := x.subIdx(q, dstFrom)
+			inRange := tAnd(x.leIdx(dstFrom, q), x.ltInt(rel, n))
+			var body Term
+			keep := tEq(tSelect(na, q), tSelect(dv, q))
+			if s != nil {
+				sv := s.(Term)
+				body = tIte(inRange, tEq(tSelect(na, q), tSelect(sv, x.addIdx(srcFrom, rel))), keep)
+			} else {
+				body = tImp(tNot(inRange), keep)
+			}
+			x.assume(st, Term{fmt.Sprintf("(forall ((qc %s)) (! %s :pattern (%s)))", is, body.S, tSelect(na, q).S), sortBool})
+			return na
+		case *StructV:
+			out := &StructV{Names: dv.Names, F: make([]Value, len(dv.F))}
+			for i := range dv.F {
+				var si Value
+				if s != nil {
+					si = s.(*StructV).F[i]
+				}
+				out.F[i] = walk(dv.F[i], si)
+			}
+			return out
+		}
+		panic(fmt.Sprintf("rangeCopied on %T", d))
+	}
+	return walk(dst, src)
+}
+
+// builtinCopy: copy(dst, src) for a destination that is a slice variable or a slice of an addressable array
+// (value semantics of slices: the destination expression receives the new contents).
+func (x *Exec) builtinCopy(e *ast.CallExpr, st *State) Value {
+	is := x.idxSort()
+	dv, ok := x.expr(e.Args[0], st).(*StructV)
+	if !ok || !isSlice(dv) {
+		x.unsupported(e, "copy")
+	}
+	var srcArr Value
+	var srcOff, srcLen Term
+	switch sv := x.expr(e.Args[1], st).(type) {
+	case *StructV:
+		srcArr, srcOff, srcLen = sv.get("$arr"), sv.get("$off").(Term), sv.get("$len").(Term)
+	default:
+		// copy(dst, "string"): the bytes of a string are not modelled; guessing them would turn into spurious refutations
+		_ = sv
+		x.unsupported(e, "copy from a string")
+	}
+	dl := dv.get("$len").(Term)
+	n := x.vc.name("ncopy", tIte(x.ltInt(dl, srcLen), dl, srcLen))
+	na := x.rangeCopied(dv.get("$arr"), dv.get("$off").(Term), srcArr, srcOff, n, st)
+	switch ae := unparen(e.Args[0]).(type) {
+	case *ast.SliceExpr:
+		if _, isArr := x.info.TypeOf(ae.X).Underlying().(*types.Array); isArr {
+			x.assign(ae.X, na, st)
+		} else if id, isID := unparen(ae.X).(*ast.Ident); isID {
+			if base, ok := x.expr(id, st).(*StructV); ok && isSlice(base) {
+				x.assign(id, base.with("$arr", na), st)
+			} else {
+				x.unsupported(e, "copy")
+			}
+		} else {
+			x.unsupported(e, "copy")
+		}
+	case *ast.Ident:
+		x.assign(ae, dv.with("$arr", na), st)
+	default:
+		x.unsupported(e, "copy")
+	}
+	_ = is
+	return n
+}
+
 // clauseModeOff: the clause has the form `<mode name> ==> ...` for a mode that is not the one under verification.
 func (x *Exec) clauseModeOff(c *Clause) bool {
 	ce, ok := c.Expr.(*ast.CallExpr)
@@ -947,7 +1028,22 @@ func (x *Exec) builtin(name string, e *ast.CallExpr, st *State) Value {
 	case "append":
 		sl := x.expr(e.Args[0], st).(*StructV)
 		if e.Ellipsis.IsValid() {
-			x.unsupported(e, "append(s, t...)")
+			// append(s, t...): s followed by the elements of t (a string's bytes are left unconstrained)
+			arr, off, ln := sl.get("$arr"), sl.get("$off").(Term), sl.get("$len").(Term)
+			var srcArr Value
+			var srcOff, srcLen Term
+			switch tv := x.expr(e.Args[1], st).(type) {
+			case *StructV:
+				srcArr, srcOff, srcLen = tv.get("$arr"), tv.get("$off").(Term), tv.get("$len").(Term)
+			default:
+				// append(bytes, str...): the bytes of a string are not modelled; guessing them would turn into spurious refutations
+				_ = tv
+				x.unsupported(e, "append(s, t...) with a string operand")
+			}
+			na := x.rangeCopied(arr, x.addIdx(off, ln), srcArr, srcOff, srcLen, st)
+			nl := x.addIdx(ln, srcLen)
+			x.assume(st, x.geZero(nl))
+			return &StructV{Names: sl.Names, F: []Value{x.vc.nameV("app", na), off, x.vc.name("len", nl)}}
 		}
 		arr, off, ln := sl.get("$arr"), sl.get("$off").(Term), sl.get("$len").(Term)
 		et := x.info.TypeOf(e.Args[0]).Underlying().(*types.Slice).Elem()
@@ -1005,7 +1101,7 @@ func (x *Exec) builtin(name string, e *ast.CallExpr, st *State) Value {
 		st.dead = true
 		return nil
 	case "copy":
-		x.unsupported(e, "copy")
+		return x.builtinCopy(e, st)
 	case "min", "max":
 		a := x.expr(e.Args[0], st).(Term)
 		b := x.expr(e.Args[1], st).(Term)
